@@ -5,58 +5,11 @@
 //! exit 2: inconclusive (hang, watchdog, unusable input) -- never a violation
 
 #![allow(dead_code)]
-mod engine;
-mod matcher;
-mod c04;
-mod c05;
-mod c06;
-mod c07;
-mod docgen;
-mod c08;
-mod c09;
-mod c10;
-mod proc;
-mod c11;
-mod c12;
-mod c13;
-mod c14;
-mod c15;
-mod execchild;
-mod c16;
-mod c17;
-mod c18;
-mod c19;
-mod c20;
-mod cfggen;
-mod unicode_c;
+use scrut_verif::*;
 
 use std::path::Path;
 
-use engine::*;
-
-fn property(id: &str) -> Option<Property> {
-    Some(match id {
-        "C01" | "C02" | "C03" => matcher::property(id),
-        "C04" => c04::property(),
-        "C05" => c05::property(),
-        "C06" => c06::property(),
-        "C07" => c07::property(),
-        "C08" => c08::property(),
-        "C09" => c09::property(),
-        "C10" => c10::property(),
-        "C11" => c11::property(),
-        "C12" => c12::property(),
-        "C13" => c13::property(),
-        "C14" => c14::property(),
-        "C15" => c15::property(),
-        "C16" => c16::property(),
-        "C17" => c17::property(),
-        "C18" => c18::property(),
-        "C19" => c19::property(),
-        "C20" => c20::property(),
-        _ => return None,
-    })
-}
+use scrut_verif::engine::*;
 
 fn usage() -> ! {
     eprintln!("usage: verif run <ID> <quick|thorough> | verif replay <ID> <file>");
